@@ -137,8 +137,8 @@ inst!(neon_three_rfind, [props=C02+C09 xprops=C05+C14 tier=thorough cfg=neon t=1
 inst!(neon_three_rfind_40, [props=C02+C09 xprops=C05+C14 tier=thorough cfg=neon t=5400 role=neon-rfind uw=verif_emul:17;rfind_raw.0:2;rfind_raw.1:4;byte_by_byte:17], 3,
     neon::find::<55>(3, true, 0, 40));
 #[cfg(vcfg_neon)]
-inst!(neon_one_count, [props=C07+C09 xprops=C05+C14 tier=quick cfg=neon t=1800 role=neon-count uw=verif_emul:17;count_raw.0:2;count_raw.1:4;byte_by_byte:17;oracle::count:22], 3,
-    neon::count::<33>(0, 18));
+inst!(neon_one_count, [props=C07+C09 xprops=C05+C14 tier=quick cfg=neon t=1800 role=neon-count uw=verif_emul:17;count_raw.0:2;count_raw.1:4;byte_by_byte:17;oracle::count:20], 3,
+    neon::count::<27>(0, 12));
 #[cfg(vcfg_neon)]
 inst!(neon_packed_find_n3, [props=C12+C09 xprops=C05+C14 tier=quick cfg=neon t=1800 role=neon-packedpair-find uw=verif_emul:17;find_in_chunk:18;is_equal_raw:3;packedpair::Finder:4], 5,
     neon::packed::<3, 34>(false));
@@ -179,8 +179,8 @@ inst!(simd128_three_rfind, [props=C02+C09 xprops=C05+C14 tier=thorough cfg=simd1
 inst!(simd128_three_rfind_40, [props=C02+C09 xprops=C05+C14 tier=thorough cfg=simd128 t=5400 role=simd128-rfind uw=verif_emul:17;rfind_raw.0:2;rfind_raw.1:4;byte_by_byte:17], 3,
     simd128::find::<55>(3, true, 0, 40));
 #[cfg(vcfg_simd128)]
-inst!(simd128_one_count, [props=C07+C09 xprops=C05+C14 tier=quick cfg=simd128 t=1800 role=simd128-count uw=verif_emul:17;count_raw.0:2;count_raw.1:4;byte_by_byte:17;oracle::count:22], 3,
-    simd128::count::<33>(0, 18));
+inst!(simd128_one_count, [props=C07+C09 xprops=C05+C14 tier=quick cfg=simd128 t=1800 role=simd128-count uw=verif_emul:17;count_raw.0:2;count_raw.1:4;byte_by_byte:17;oracle::count:20], 3,
+    simd128::count::<27>(0, 12));
 #[cfg(vcfg_simd128)]
 inst!(simd128_packed_find_n3, [props=C12+C09 xprops=C05+C14 tier=quick cfg=simd128 t=1800 role=simd128-packedpair-find uw=verif_emul:17;find_in_chunk:18;is_equal_raw:3;packedpair::Finder:4], 5,
     simd128::packed::<3, 34>(false));
@@ -191,10 +191,10 @@ inst!(simd128_packed_pre_n3, [props=C11+C09 xprops=C05+C14 tier=quick cfg=simd12
 inst!(simd128_finder_n2, [props=C03+C09 xprops=C05+C14 tier=quick cfg=simd128 t=1800 role=simd128-finder uw=verif_emul:17;find_in_chunk:18;is_equal_raw:3;packedpair::Finder:3;rabinkarp::Finder::find_raw:22;Hash:5;rabinkarp::Finder::new:5;with_ranker:5;oracle:4], 4,
     simd128::finder::<2, 20>(0, 20));
 #[cfg(vcfg_neon)]
-inst!(neon_top_wiring_12, [props=C01+C02+C07+C09 xprops=C05+C14 tier=quick cfg=neon t=1800 role=neon-top-level-wiring uw=verif_emul:17;find_raw.0:2;find_raw.1:3;count_raw.0:2;count_raw.1:3;byte_by_byte:17;oracle::count:22], 3,
+inst!(neon_top_wiring_12, [props=C01+C02+C07+C09 xprops=C05+C14 tier=quick cfg=neon t=1800 role=neon-top-level-wiring uw=verif_emul:17;find_raw.0:2;find_raw.1:3;count_raw.0:2;count_raw.1:3;byte_by_byte:17;oracle::count:20], 3,
     neon::top_wiring::<12>());
 #[cfg(vcfg_simd128)]
-inst!(simd128_top_wiring_12, [props=C01+C02+C07+C09 xprops=C05+C14 tier=quick cfg=simd128 t=1800 role=simd128-top-level-wiring uw=verif_emul:17;find_raw.0:2;find_raw.1:3;count_raw.0:2;count_raw.1:3;byte_by_byte:17;oracle::count:22], 3,
+inst!(simd128_top_wiring_12, [props=C01+C02+C07+C09 xprops=C05+C14 tier=quick cfg=simd128 t=1800 role=simd128-top-level-wiring uw=verif_emul:17;find_raw.0:2;find_raw.1:3;count_raw.0:2;count_raw.1:3;byte_by_byte:17;oracle::count:20], 3,
     simd128::top_wiring::<12>());
 
 // ---------------------------------------------------------------------------
